@@ -35,6 +35,15 @@ type InterleaveScenario struct {
 	// AllMerges: enumerate EVERY order-preserving merge of the per-PID queues (tiny models of
 	// independent PIDs only; bounded-exhaustive part of the schedule space).
 	AllMerges bool `json:"all_merges,omitempty"`
+	// Dups: packets repeated (same counter, same bytes) right behind their original within
+	// their own PID's sequence - part of that PID's packets like any other
+	Dups []DupSpec `json:"dups,omitempty"`
+}
+
+// DupSpec names a packet of a stream's own sequence (by index) that is followed by a duplicate.
+type DupSpec struct {
+	Stream int `json:"stream"`
+	Index  int `json:"index"`
 }
 
 type interleave struct{}
@@ -204,6 +213,70 @@ func (interleave) Generate(r *core.PRNG, tier string, idx int64) any {
 		}
 		sc.Inserts = append(sc.Inserts, in)
 	}
+	if r.Chance(1, 3) {
+		for n := r.Range(1, 2); n > 0; n-- {
+			si := r.Intn(len(b.PerStream))
+			if len(b.PerStream[si]) == 0 {
+				continue
+			}
+			d := DupSpec{Stream: si, Index: r.Intn(len(b.PerStream[si]))}
+			if r.Bool() {
+				// the packet that completes a unit
+				for k, mt := range b.PerStreamMeta[si] {
+					if mt.Index == mt.Count-1 && (k >= d.Index || d.Index == 0) {
+						d.Index = k
+						break
+					}
+				}
+			}
+			sc.Dups = append(sc.Dups, d)
+			// the base multiplex keeps the duplicate right behind its original; one more schedule
+			// puts the next packet of another PID (the PAT's, if there is one left) between the two
+			// every schedule gets the extra pick right behind the original's (otherwise the stream's
+			// last packet would slide to the end of the multiplex, which for a PAT is a different stream)
+			dupPick := func(picks []int) ([]int, int) {
+				seen := 0
+				for i, s := range picks {
+					if s == si {
+						if seen == d.Index {
+							return append(append(append([]int{}, picks[:i+1]...), si), picks[i+1:]...), i
+						}
+						seen++
+					}
+				}
+				return picks, -1
+			}
+			for k := range sc.AltMerges {
+				sc.AltMerges[k], _ = dupPick(sc.AltMerges[k])
+			}
+			base2, pos := dupPick(sc.Model.Merge)
+			if pos < 0 {
+				continue
+			}
+			sc.Model.Merge = base2
+			other := -1
+			for pass := 0; pass < 2 && other < 0; pass++ {
+				for j := pos + 2; j < len(base2); j++ {
+					t := base2[j]
+					if t == si || sc.Model.Streams[t].Kind == "PMT" {
+						continue
+					}
+					if pass == 0 && sc.Model.Streams[t].Kind != "PAT" {
+						continue
+					}
+					other = j
+					break
+				}
+			}
+			if other > 0 {
+				alt := append([]int{}, base2[:pos+1]...)
+				alt = append(alt, base2[other])
+				alt = append(alt, base2[pos+1:other]...)
+				alt = append(alt, base2[other+1:]...)
+				sc.AltMerges = append(sc.AltMerges, alt)
+			}
+		}
+	}
 	var cands []int
 	for i, s := range sc.Model.Streams {
 		if s.Kind != "PAT" {
@@ -257,8 +330,21 @@ func (interleave) Execute(scAny any, keepLog bool) *core.Outcome {
 		out.Probe("model-unbuildable")
 		return out
 	}
-	out.Packets = int64(len(b.Packets))
 	m := sc.Model
+	if len(sc.Dups) > 0 {
+		for _, d := range sc.Dups {
+			if d.Stream < 0 || d.Stream >= len(b.PerStream) || d.Index < 0 || d.Index >= len(b.PerStream[d.Stream]) {
+				continue
+			}
+			l, ml := b.PerStream[d.Stream], b.PerStreamMeta[d.Stream]
+			l = append(l[:d.Index+1:d.Index+1], append([][]byte{l[d.Index]}, l[d.Index+1:]...)...)
+			ml = append(ml[:d.Index+1:d.Index+1], append([]refts.PktMeta{ml[d.Index]}, ml[d.Index+1:]...)...)
+			b.PerStream[d.Stream], b.PerStreamMeta[d.Stream] = l, ml
+			out.Probe("duplicate-in-own-sequence")
+		}
+		b.Packets, b.Meta = refts.MergePackets(b.PerStream, b.PerStreamMeta, m.Merge)
+	}
+	out.Packets = int64(len(b.Packets))
 	base := perPIDFull(b.Packets, out.Log)
 	out.Evals++
 	var pids []int
@@ -309,7 +395,7 @@ func (interleave) Execute(scAny any, keepLog bool) *core.Outcome {
 					pre := len(out.Violations)
 					compare("schedule", "enum-", got, nil, -1)
 					if len(out.Violations) > pre {
-						out.Narrow(pre, &InterleaveScenario{Model: m, AltMerges: [][]int{append([]int{}, prefix...)}})
+						out.Narrow(pre, &InterleaveScenario{Model: m, Dups: sc.Dups, AltMerges: [][]int{append([]int{}, prefix...)}})
 					}
 					return
 				}
@@ -503,6 +589,13 @@ func (interleave) Shrink(scAny any) []any {
 	}
 	if sc.Corrupt != nil {
 		mk(func(c *InterleaveScenario) { c.Corrupt = nil })
+	}
+	if len(sc.Dups) > 0 {
+		mk(func(c *InterleaveScenario) { c.Dups = nil })
+		for i := range sc.Dups {
+			i := i
+			mk(func(c *InterleaveScenario) { c.Dups = []DupSpec{sc.Dups[i]} })
+		}
 	}
 	return out
 }
